@@ -13,6 +13,7 @@ import Proofs.GoTieSshRsa
 import Props.C01
 import Proofs.GoTieSsh
 import Proofs.GoTieWitnessA
+import Proofs.GoTieFileRT
 namespace AgeModel
 namespace Tie.C01
 
@@ -117,6 +118,59 @@ theorem code_sshRsa_wrap_unwrap (P : Prims) (hP : P.Correct) {π β γ : Type} (
     rfl
   · obtain ⟨r, hrun, hcls⟩ := GoTie.sshRsa_unwrap_tie P E key priv st
     exact ⟨r, hrun, by rw [hcls, Props.C01.sshrsa_wrap_unwrap P hP (E.wire key) (E.pubOf pub) (E.privOf priv) seed fk st hpair hw]⟩
+
+/-! Encrypt then Decrypt, about the two translated functions (`code_file_roundtrip`): when the translated
+`age.Encrypt` has run on an empty destination that takes every write, the destination holds
+header ‖ nonce and the returned writer seals under the stream key K derived from the file key and
+that nonce; for EVERY byte string `c` written after it, the translated `age.Decrypt` over the
+destination's bytes followed by `c` — any identity list in which the first identity that does not
+answer "incorrect identity" opens the file key — returns a reader under the SAME K over exactly
+`c`. With `Tie/C12.code_stream_roundtrip` (translated stream writer and reader under one key) this is
+the property's pipeline at the level of the source text. -/
+
+theorem code_file_roundtrip (P : Prims) (hP : P.Correct) {ρ δ ω ι : Type}
+    (EE : GoTie.EncryptEnv P Stream.DstSpec.perfect ρ δ ω) (DE : GoTie.DecryptEnv P ι)
+    (d : δ) (hd : (EE.absD d).acc = []) (rs : List ρ) (tape : Bytes)
+    (hrs : ∀ r ∈ rs.map EE.recOf, r.ProducesWF P)
+    (fk : Bytes) (stanzas : List Format.Stanza) (t nonce t' : Bytes)
+    (hh : encryptHeader P tape (rs.map EE.recOf) = .ok (fk, stanzas, t))
+    (hn : draw streamNonceSize t = some (nonce, t'))
+    (pre post : List ι) (id : ι)
+    (hpre : ∀ i ∈ pre, (DE.idOf i).unwrap P stanzas = .incorrect) (hid : (DE.idOf id).unwrap P stanzas = .key fk) :
+    ∃ res, Extracted.age_Encrypt EE.nilW (GoTie.tapeRead EE.eRand) EE.W EE.mac EE.marshalF EE.write EE.newWriter EE.key d rs tape = .ok res ∧
+      res.2.1 = none ∧ res.1 = EE.mkW (streamKey P fk nonce) res.2.2.1 ∧ res.2.2.2 = t' ∧
+      (EE.absD res.2.2.1).acc = headerBytes P fk stanzas ++ nonce ∧
+      ∀ c : Bytes, Extracted.age_Decrypt DE.D DE.U GoTie.errorsIsEq DE.mac DE.newReader DE.key ((EE.absD res.2.2.1).acc ++ c) (pre ++ id :: post) =
+        .ok (streamKey P fk nonce ++ c, none) :=
+  GoTie.code_file_roundtrip P hP EE DE d hd rs tape hrs fk stanzas t nonce t' hh hn pre post id hpre hid
+
+/-- non-vacuity: with the toy primitive suite, one X25519 recipient, a 64-byte tape and the identity whose public key
+    the toy X25519 makes of any secret, the premises hold — so the conclusion does, for every `c` -/
+theorem code_file_roundtrip_instance :
+    let EE := GoTie.EncryptEnv.witness Stream.DstSpec.perfect
+    let DE := GoTie.DecryptEnv.witness
+    ∃ res K, Extracted.age_Encrypt EE.nilW (GoTie.tapeRead EE.eRand) EE.W EE.mac EE.marshalF EE.write EE.newWriter EE.key
+          ⟨[], ()⟩ [Recipient.x25519 (List.replicate 32 0)] (List.replicate 64 7) = .ok res ∧ res.2.1 = none ∧
+      ∀ c : Bytes, Extracted.age_Decrypt DE.D DE.U GoTie.errorsIsEq DE.mac DE.newReader DE.key ((EE.absD res.2.2.1).acc ++ c)
+          [Identity.x25519 [1]] = .ok (K ++ c, none) := by
+  intro EE DE
+  have hP := Prims.toy16_correct
+  obtain ⟨fk, st, t, hh, hid, ht⟩ : ∃ fk st t, encryptHeader Prims.toy16 (List.replicate 64 7) [Recipient.x25519 (List.replicate 32 0)] = .ok (fk, st, t) ∧
+      (Identity.x25519 [1]).unwrap Prims.toy16 st = .key fk ∧ t = List.replicate 16 7 :=
+    ⟨_, _, _, rfl, by decide, by decide⟩
+  have hn : draw streamNonceSize t = some (List.replicate 16 7, []) := by subst ht; decide
+  have hid' : (DE.idOf (Identity.x25519 [1])).unwrap Prims.toy16 st = .key fk := by
+    have hne : (Identity.x25519 [1]).unwrap Prims.toy16 st ≠ .key [] := by
+      rw [hid]; intro e
+      have hfk := (encryptHeader_fk hh).1
+      simp only [UnwrapResult.key.injEq] at e
+      rw [e] at hfk; simp [fileKeySize] at hfk
+    show (GoTie.sanitize Prims.toy16 (Identity.x25519 [1])).unwrap Prims.toy16 st = .key fk
+    rw [GoTie.sanitize_unwrap Prims.toy16 _ st hne, hid]
+  obtain ⟨res, h1, h2, _, _, _, h6⟩ := code_file_roundtrip Prims.toy16 hP EE DE ⟨[], ()⟩ rfl [Recipient.x25519 (List.replicate 32 0)]
+    (List.replicate 64 7) (by intro r hr; simp only [List.map_cons, List.map_nil, List.mem_singleton] at hr; subst hr; exact producesWF_x25519 _ hP _)
+    fk st t _ _ hh hn [] [] (Identity.x25519 [1]) (by intro i hi; cases hi) hid'
+  exact ⟨res, _, h1, h2, h6⟩
 
 /-- **the assumption structures this file's theorems take are satisfiable** (for a lawful toy primitive suite
     with the 16-byte tag, where they mention primitives): none of the theorems above is vacuous. The instances are in
